@@ -317,11 +317,15 @@ func ffOp(op, pat string, args []string, a *argTrack) string {
 			}
 			arg = v
 		case "int":
-			v, err := strconv.Atoi(args[1])
+			v, err := strconv.ParseInt(args[1], 10, 64)
 			if err != nil {
 				panic("harness: bad int")
 			}
-			arg = v
+			if int64(int(v)) == v {
+				arg = int(v)
+			} else {
+				arg = new(big.Int).SetInt64(v) // GOARCH=386: an int cannot hold it; the same integer as *big.Int keeps the op stream aligned
+			}
 		case "string":
 			arg = args[1]
 		case "bigintptr":
